@@ -212,3 +212,79 @@ def link_valid(e, certifier, now=None):
         return False
     except Exception:
         return False
+
+
+def _us(dt):
+    epoch = datetime.datetime.fromtimestamp(0, UTC)
+    return (dt - epoch) // datetime.timedelta(microseconds=1)
+
+
+def link_facts(e, certifier, now=None):
+    """the primitive facts about one link, for the Lean model `Cert.linkValid` to combine: which kind of
+    element and certifier, whether their material parses, the clock and the validity period (microseconds),
+    whether the report data is bound, whether the certifier can provide a key, whether the signature verifies.
+    `certifier`: element dict, or ('root', x509 cert).  Independent of admin/certificate_v2.py."""
+    now = now or datetime.datetime.now(UTC)
+    t = e.get("type")
+    f = {"kind": {"x509_pem": "x509", "sgx_attestation_key": "attkey", "sgx_quote": "quote"}.get(t, "other"),
+         "certifier_is_x509": False, "loads": False, "now": _us(now), "not_before": 0, "not_after": 0,
+         "bound": False, "certifier_has_key": False, "sig_ok": False}
+    try:
+        if isinstance(certifier, tuple):
+            ckind, cobj = "x509", certifier[1]
+        elif certifier.get("type") == "x509_pem":
+            ckind, cobj = "x509", None
+        elif certifier.get("type") == "sgx_attestation_key":
+            ckind, cobj = "attkey", certifier
+        else:
+            ckind, cobj = "other", certifier
+        f["certifier_is_x509"] = ckind == "x509"
+        if t == "x509_pem":
+            if ckind != "x509":
+                return f
+            subject = _x509_from_element(e)
+            if cobj is None:
+                cobj = _x509_from_element(certifier)
+            f["loads"] = True
+            f["not_before"] = _us(subject.not_valid_before_utc)
+            f["not_after"] = _us(subject.not_valid_after_utc)
+            ipk = cobj.public_key()
+            if isinstance(ipk, ec.EllipticCurvePublicKey):
+                n = ipk.public_numbers()
+                curve = {"secp256r1": ecdsa.NIST256p, "secp384r1": ecdsa.NIST384p,
+                         "secp256k1": ecdsa.SECP256k1}.get(ipk.curve.name)
+                h = {"sha256": hashlib.sha256, "sha384": hashlib.sha384}.get(subject.signature_hash_algorithm.name)
+                if curve is not None and h is not None:
+                    size = (ipk.curve.key_size + 7) // 8
+                    vk = ecdsa.VerifyingKey.from_string(n.x.to_bytes(size, "big") + n.y.to_bytes(size, "big"),
+                                                        curve=curve)
+                    try:
+                        f["sig_ok"] = bool(vk.verify(subject.signature, subject.tbs_certificate_bytes, hashfunc=h,
+                                                     sigdecode=ecdsa.util.sigdecode_der))
+                    except Exception:
+                        f["sig_ok"] = False
+            return f
+        if t in ("sgx_attestation_key", "sgx_quote"):
+            msg = bytes.fromhex(e["message"])
+            if t == "sgx_attestation_key":
+                pub = _crypto_pub_of("attkey", e)
+                if pub is None or len(msg) < 384:
+                    return f
+                n = pub.public_numbers()
+                raw = n.x.to_bytes(32, "big") + n.y.to_bytes(32, "big")
+                f["loads"] = True
+                f["bound"] = hashlib.sha256(raw + bytes.fromhex(e["auth_data"])).digest() == msg[320:352]
+            else:
+                if len(msg) < 432:
+                    return f
+                f["loads"] = True
+                f["bound"] = hashlib.sha256(bytes.fromhex(e["custom_data"])).digest() == msg[48 + 320:48 + 352]
+            if ckind == "x509" and cobj is None:
+                cobj = _x509_from_element(certifier)
+            cpub = _crypto_pub_of(ckind, cobj)
+            f["certifier_has_key"] = cpub is not None
+            f["sig_ok"] = cpub is not None and _verify_crypto(cpub, bytes.fromhex(e["signature"]), msg)
+            return f
+        return f
+    except Exception:
+        return f
